@@ -31,7 +31,7 @@ def _digests(prop: str, indices: list[int], verif_seed: int, hashseed: str, tier
         "import sys, json; sys.path.insert(0, %r)\n"
         "from sim import runner, seams\nfrom sim.core import derive_seed, execute\n"
         "seams.import_repo()\nm = runner.load_machine(%r)\n"
-        "getattr(m, 'preload', lambda: None)()\n"
+        "getattr(m, 'preload', lambda: None)()\nseams.record_pristine()\n"
         "kf = [k for k in runner.load_known_findings().get('findings', []) if k.get('property') == %r]\n"
         "out = {}\n"
         "for i in %r:\n"
